@@ -2,7 +2,7 @@
 From Coq Require Import List String Ascii Bool Arith.
 From Spil Require Import Base.Str Base.Dict Base.Outcome Base.Tree Base.PyPath Regex.Re
   Resolva.Template Resolva.Resolver Conf.ConfUtil Conf.Conf Conf.Routing Sid.Query Sid.Sid
-  Search.Unfold Search.FindList Search.Finders FS.Fs Data.Data Driver.Dispatch.
+  Search.Unfold Search.FindList Search.Finders FS.Fs Data.Data Data.Crash Driver.Dispatch.
 Import ListNotations.
 Local Open Scope string_scope.
 
@@ -60,6 +60,48 @@ Definition run_fs (st : option Loaded) (rt : option Routing) (F : fs) (op : stri
         match t_pairs d with Some d => with_fs F t_bool (w_create Ld Rt F cfg s d) | None => pure bad end
     | "w_update", [L cfg; L s; d] =>
         match t_pairs d with Some d => with_fs F t_bool (w_update Ld F cfg s d) | None => pure bad end
+    | "sidecar_of", [L cfg; L s] =>
+        match (do x <- Sid Ld s; sid_path Ld x (default_cfg Ld cfg)) with
+        | Ok (Some p) => pure (L (sidecar Ld p))
+        | _ => pure bad
+        end
+    | "corrupt_sidecar", [L cfg; L s; L kind] =>
+        match (do x <- Sid Ld s; sid_path Ld x (default_cfg Ld cfg)) with
+        | Ok (Some p) =>
+            let dp := sidecar Ld p in
+            (L "ok", fs_add F dp (if String.eqb kind "dir" then Dir else if String.eqb kind "empty" then File CEmpty else File CCorrupt))
+        | _ => pure bad
+        end
+    | "crash_write", [L cfg; L s; d; L mode; L n] =>
+        match t_pairs d with
+        | None => pure bad
+        | Some data =>
+            match (do x <- Sid Ld s; do po <- sid_path Ld x (default_cfg Ld cfg); Ok po) with
+            | Raise e => pure (N [L "raise"; L (exn_name e)])
+            | Ok None => pure (N [L "raise"; L "SpilException"])
+            | Ok (Some p) =>
+                if negb (fs_exists F p) then pure (N [L "raise"; L "SpilException"]) else
+                let dp := sidecar Ld p in
+                match fs_get F dp with
+                | Some (File (CJson prev)) =>
+                    let effs := write_effects dp (dupdate prev data) 1 in
+                    let k := if String.eqb mode "before" then 0
+                             else if String.eqb mode "partial" then (if Nat.eqb (str_to_nat n) 0 then 1 else 2)
+                             else if String.eqb mode "before_replace" then 3
+                             else 4 in
+                    (N [L (if String.eqb mode "none" then "completed" else "crashed")], crash_at F effs (if String.eqb mode "none" then 4 else k))
+                | None =>
+                    let effs := write_effects dp data 1 in
+                    let k := if String.eqb mode "before" then 0
+                             else if String.eqb mode "partial" then (if Nat.eqb (str_to_nat n) 0 then 1 else 2)
+                             else if String.eqb mode "before_replace" then 3
+                             else 4 in
+                    (N [L (if String.eqb mode "none" then "completed" else "crashed")], crash_at F effs (if String.eqb mode "none" then 4 else k))
+                | Some Dir | Some Unreadable => pure (N [L "raise"; L "OSError"])
+                | Some (File _) => pure (N [L "raise"; L "JSONDecodeError"])
+                end
+            end
+        end
     | "get_data_paths", [L cfg; s; attrs; L enc] =>
         match t_strs attrs with
         | Some a => on_sid s (fun x => t_out t_record (get_data_paths Ld F cfg x a (parse_enc enc)))
